@@ -1,0 +1,21 @@
+//go:build verif
+
+package verifspec
+
+// Contracts for compiler/natives/src/math/bits (property C13): the documented results of the upstream functions.
+
+// Add32: sum + carryOut*2^32 == x + y + carry for carry in {0, 1}.  Pure bit manipulation: mode bv.
+//@ func natives:math/bits.Add32
+//@ property C13
+//@   word 32
+//@   mode bv
+//@   requires carry <= 1
+//@   ensures zx(sum) + shl(zx(carryOut), 32) == zx(x) + zx(y) + zx(carry)
+
+// Mul32: hi*2^32 + lo == x*y.  Mode int with the product abstraction; the limb identity is lemma imulLimbs.
+//@ func natives:math/bits.Mul32
+//@ property C13
+//@   word 32
+//@   hint return: use imulLimbs(x, y, x1, x0, y1, y0)
+//@   ensures hi * 4294967296 + lo == prod(x, y)
+//@   ensures hi >= 0 && hi <= 4294967295 && lo >= 0 && lo <= 4294967295
